@@ -43,6 +43,7 @@ func runC14(c *Ctx, r *Report) {
 	c14DNSRule(c, r, "C14.R15")
 	c06IsHTTP(c, r, "C14.R16")
 	c14ClockWindow(c, r, "C14.R17")
+	c14SeparateObjects(c, r, "C14.R18")
 }
 
 // fieldAccesses returns for every function the struct fields it loads and stores.
